@@ -903,7 +903,47 @@ class C08Executor(readfile.ReadFileExecutor):
         if attr == "close" and (isinstance(base, VUnk) or isinstance(base, VExt) and self.reg.method_models.get((base.sort, "close")) is None
                                 and self.reg.attr_models.get((base.sort, "close")) is None):
             return [(st, VFunc("bound", base, attr))]        # see call_method: close() assumed total
+        cc = self._class_constant(st, base, attr)
+        if cc is not None:
+            return self.ev(cc, st)
         return super().get_attr(st, base, attr, node)
+
+    def _class_constant(self, st, base, attr):
+        """`obj.NAME` on an instance of a class of this module where NAME is no instance field but a constant of the class body
+        (`NAME = <literal>` exactly once, directly in the body of the class or of a single-inheritance base in the module): the
+        literal, as for a module-level constant.  None (engine default: an unknown bound attribute) when NAME is a method, is
+        bound more than once, is stored through any attribute target / named in a string anywhere in the module (setattr), or
+        is not a plain literal."""
+        if not (hasattr(base, "ref") and base.ref in st.heap):
+            return None
+        o = st.obj(base.ref)
+        if o.kind != "obj" or attr in o.data or not o.cls or attr.startswith("__"):
+            return None
+        cls = o.cls
+        for _hop in range(8):
+            cnode = self.module.classes.get(cls)
+            if cnode is None or f"{cls}.{attr}" in self.module.functions:
+                return None
+            binds = [n for n in ast.walk(cnode) if isinstance(n, ast.Name) and n.id == attr and isinstance(n.ctx, (ast.Store, ast.Del))]
+            if binds:
+                direct = [s for s in cnode.body if isinstance(s, (ast.Assign, ast.AnnAssign)) and s.value is not None
+                          and [t for t in (s.targets if isinstance(s, ast.Assign) else [s.target]) if isinstance(t, ast.Name) and t.id == attr]]
+                if len(binds) != 1 or len(direct) != 1 or (isinstance(direct[0], ast.Assign) and len(direct[0].targets) != 1):
+                    return None
+                val = direct[0].value
+                lit = val.operand if isinstance(val, ast.UnaryOp) and isinstance(val.op, ast.USub) else val
+                if not (isinstance(lit, ast.Constant) and isinstance(lit.value, (int, str, bytes, bool))):
+                    return None
+                for n in ast.walk(self.module.tree):
+                    if isinstance(n, ast.Attribute) and n.attr == attr and isinstance(n.ctx, (ast.Store, ast.Del)):
+                        return None
+                    if isinstance(n, ast.Constant) and n.value == attr and isinstance(n.value, str):
+                        return None
+                return val
+            if len(cnode.bases) != 1 or cnode.keywords:
+                return None
+            cls = ast.unparse(cnode.bases[0])
+        return None
 
     def _contracted_method(self, st, obj, name):
         if hasattr(obj, "ref") and obj.ref in st.heap:
@@ -1284,6 +1324,7 @@ class C08Executor(readfile.ReadFileExecutor):
 
 EXECUTOR = C08Executor
 LOCK_OPTIONAL_KINDS = ("inv-init", "inv-preserve", "decreases")     # loop obligations exist only while the code has the loop
+LOCK_OPTIONAL_FUNCTIONS = ("/encryption.py::_has_ole_encryption_stream/",)   # complementary helper contract: follows the helper by role (ole_marker_helper)
 EXECUTOR_KW = {}
 
 
@@ -1345,14 +1386,43 @@ def _spec_or_unknown(spec, name="file_like"):
 LOOP_RULES[("while", "record-chain")] = LoopSpec(inv=xls_loop_inv, label="record-chain", decreases=xls_loop_decreases)
 
 
+def ole_marker_helper(repo=None):
+    """(name, parameter) of the private helper of util/encryption.py that answers "does this OLE container carry an encryption
+    stream" for BOTH OLE detectors -- found by its role, not by its name (a private helper may be renamed): the one module-level
+    function with a single parameter that is_ooxml_encrypted and is_ppt_encrypted both call by name with one plain-name argument.
+    None when there is no such helper (test inlined, or split differently): the helper contract is COMPLEMENTARY, both detectors
+    keep their own locked `returns` obligations and execute an un-contracted helper in place."""
+    try:
+        m = loader.module(ENC, repo)
+    except Exception:
+        return None
+
+    def called(fn):
+        node = m.functions.get(fn)
+        return set() if node is None else {n.func.id for n in ast.walk(node) if isinstance(n, ast.Call) and isinstance(n.func, ast.Name)
+                                           and len(n.args) == 1 and isinstance(n.args[0], ast.Name) and not n.keywords}
+    cands = []
+    for name in sorted(called("is_ooxml_encrypted") & called("is_ppt_encrypted")):
+        node = m.functions.get(name)
+        if node is None or not isinstance(node, ast.FunctionDef) or node.decorator_list:
+            continue
+        a = node.args
+        if len(a.args) == 1 and not (a.posonlyargs or a.kwonlyargs or a.vararg or a.kwarg or a.defaults):
+            cands.append((name, a.args[0].arg))
+    return cands[0] if len(cands) == 1 else None
+
+
 def detector_contracts(reg):
     out = []
     FL = [("file_like", p_ext("BytesIO"))]
     lib = [Raises("Exception", sub=True, label="only what the container library raises")]
-    out.append(FnContract(
-        target=f"{ENC}::_has_ole_encryption_stream", params=[("ole", p_ext("OleFile"))],
-        returns=lambda c: VBool(spec_ole_enc(c.args["ole"].t)), raises=[],
-        note="OLE container carries an encryption stream (EncryptionInfo / EncryptedPackage / DataSpaces)"))
+    helper = ole_marker_helper()
+    if helper is not None:
+        hname, hparam = helper
+        out.append(FnContract(
+            target=f"{ENC}::{hname}", params=[(hparam, p_ext("OleFile"))],
+            returns=lambda c: VBool(spec_ole_enc(c.args[hparam].t)), raises=[],
+            note="OLE container carries an encryption stream (EncryptionInfo / EncryptedPackage / DataSpaces)"))
     out.append(FnContract(
         target=f"{ENC}::is_ooxml_encrypted", params=FL, modifies=("file_like",),
         returns=_spec_or_unknown(spec_ooxml), raises=lib,
